@@ -95,6 +95,16 @@ CHECKS = [
          note='Trusted: vf/oracles/packref.py written from the docstring layout; codec run through the pyx transliterator. Pair '
               'orientation in cis/trans records and float16 truncation vs rounding are not fixed by the layout text; either accepted.',
          technique='round-trip + differential (independent reference codec) property-based testing; regression corpus of published packs'),
+    dict(id='C13',
+         text='Model-based history search: Kekule seed molecules followed by 3-14 drawn operations (add/delete atom and bond, '
+              'committed and rolled-back transactions, remap, copy, substructure, union, in-place union, clean_stereo, label, '
+              'explicify/implicify) interleaved with reads of drawn subsets of 14 derived values; after every step the molecule is '
+              'compared with an independently rebuilt one (fresh container, same numbers/insertion order, labels through the '
+              'public setters), adjacency symmetry, rollback restoration and source independence are asserted. Histories are plain '
+              'operation lists, so a failure shrinks and replays as one value.',
+         note='Trusted: the rebuild operator and the C01 symmetry oracle / MCB oracle used to skip values that legitimately depend '
+              'on the perceived ring set or fall in documented canonicalisation gaps (counted).',
+         technique='model-based (stateful) property-based testing with an independent rebuild as reference model'),
     dict(id='C18',
          text='Exhaustive enumeration of the finite domain (118 elements x all tabulated isotopes + unspecified x charge '
               '-4..+4 x radical): lookups against a literal standard table, table-key consistency, mass computability, '
